@@ -3,7 +3,7 @@
    usage: driver <engine> <oc:0|1>  < cases > answers *)
 open Model
 
-let pos_of_hex (s : string) (start : int) : z =
+let pos_of_hex (s : Stdlib.String.t) (start : int) : z =
   (* build a positive from hex digits, most significant first *)
   let acc = ref None in   (* None = zero so far *)
   for i = start to String.length s - 1 do
@@ -22,12 +22,12 @@ let pos_of_hex (s : string) (start : int) : z =
   done;
   match !acc with None -> Z0 | Some p -> Zpos p
 
-let z_of_string (s : string) : z =
+let z_of_string (s : Stdlib.String.t) : z =
   if String.length s > 0 && s.[0] = '-' then
     (match pos_of_hex s 1 with Zpos p -> Zneg p | z -> z)
   else pos_of_hex s 0
 
-let hex_of_pos (p : positive) : string =
+let hex_of_pos (p : positive) : Stdlib.String.t =
   (* collect bits little-endian *)
   let rec bits p acc = match p with
     | XH -> true :: acc
@@ -48,7 +48,7 @@ let hex_of_pos (p : positive) : string =
     | _ -> assert false in
   go bl; Buffer.contents buf
 
-let string_of_z (z : z) : string = match z with
+let string_of_z (z : z) : Stdlib.String.t = match z with
   | Z0 -> "0"
   | Zpos p -> hex_of_pos p
   | Zneg p -> "-" ^ hex_of_pos p
@@ -65,6 +65,7 @@ let () =
     | "map" -> Model.run_map oc
     | "tree" -> Model.run_ptree oc
     | "rec" -> Model.run_rec oc
+    | "gh" -> Model.run_gh oc
     | _ -> failwith ("unknown engine " ^ engine) in
   let out = Buffer.create 65536 in
   (try
